@@ -386,6 +386,8 @@ def check_tree(ctx, r, S, stream, via_ops, lines, pend, n_pts=2, oracle_only=Fal
                           '{!r}'.format(dd, gd), desc)
         fst, D = fd_oracle(f, S, xs, ds, value_fn=value_fn)
         ctx.hit('fd/' + fst.split(':')[0])
+        if fst == 'kink':
+            ctx.case(None)      # counted as evaluated, trivial (no verdict at a kink)
         if fst == 'ok':
             tol = 2e-6 * max(1.0, abs(D), abs(gd))
             if abs(D - gd) > tol:
@@ -403,7 +405,7 @@ def check_tree(ctx, r, S, stream, via_ops, lines, pend, n_pts=2, oracle_only=Fal
                 pend.append(('deriv', desc, dd, S, classes, stream))
 
 
-def lipschitz_oracle(ctx, f, S, L, dom, desc0, key0, classes, n_pairs=8):
+def lipschitz_oracle(ctx, f, S, L, dom, desc0, key0, classes, n_pairs=12):
     rng = ctx.rng
     try:
         G = f.gradient
@@ -414,7 +416,7 @@ def lipschitz_oracle(ctx, f, S, L, dom, desc0, key0, classes, n_pairs=8):
         return
     worst = 0.0
     for i in range(n_pairs):
-        k = rng.choice([0, 0, 1, 2, 3, 5])
+        k = rng.choice([0, 0, 1, 2, 3, 5, 7])   # small scales: all |x_i| < gamma for Huber parts
         s1 = 2.0 ** -k
         xs = [v * s1 for v in gen_point(rng, S, dom)]
         step = 2.0 ** -rng.choice([0, 1, 2, 4, 6])
